@@ -368,6 +368,13 @@ class Func:
         if self._dom is None:
             self._dom = _dominators(self.blocks.keys(), self.entry, lambda b: self.blocks[b]['succ'],
                                     lambda b: self.preds[b])
+            # exception handlers are not reachable through CFG edges: each handler is its own root
+            for bid, b in self.blocks.items():
+                if (b.get('label') or {}).get('k') == 'catch' and bid not in self._dom:
+                    sub = _dominators(self.blocks.keys(), bid, lambda x: self.blocks[x]['succ'], lambda x: self.preds[x])
+                    for k, v in sub.items():
+                        if k not in self._dom:
+                            self._dom[k] = v
         return self._dom
 
     def postdominators(self):
